@@ -167,7 +167,7 @@ def discharge_one(ob, text, workdir, timeout, second_opinion=False, slice_texts=
     return _discharge_text(ob, text, workdir, timeout, second_opinion)
 
 
-def _discharge_text(ob, text, workdir, timeout, second_opinion=False, only_first=False):
+def _discharge_text(ob, text, workdir, timeout, second_opinion=False, only_first=False, parallel=False):
     r = Result(ob)
     r.smt_sha = hashlib.sha256(text.encode()).hexdigest()[:16]
     path = os.path.join(workdir, '%s_%d.smt2' % (r.smt_sha, next(_file_ctr)))
@@ -184,11 +184,17 @@ def _discharge_text(ob, text, workdir, timeout, second_opinion=False, only_first
         # reason-unknown "(incomplete quantifiers)" (the classic "verification failed" answer); the others then get a
         # reduced budget to find a proof the older solver missed
         solvers = [SOLVERS[3], SOLVERS[1], SOLVERS[0], SOLVERS[2]]
+    solvers = [(n_, c_) for n_, c_ in solvers if not (n_.startswith('cvc5') and '(lambda' in text)]
+    pre = {}
+    if parallel and len(solvers) > 1:
+        # few obligations are left and the cores are idle: the whole portfolio runs at once (same budgets, same combination of answers)
+        with ThreadPoolExecutor(max_workers=len(solvers)) as ex2:
+            futs = {n_: ex2.submit(run_solver, n_, c_, path, timeout) for n_, c_ in solvers}
+            pre = {n_: f.result() for n_, f in futs.items()}
+        r.seconds -= sum(x[2] for x in pre.values()) - max(x[2] for x in pre.values())
     for name, cmd in solvers:
-        if name.startswith('cvc5') and '(lambda' in text:
-            continue
         budget = timeout      # (a candidate model from the E-matching pass does not shorten the budget of the complete solvers)
-        v, out, secs = run_solver(name, cmd, path, budget)
+        v, out, secs = pre[name] if name in pre else run_solver(name, cmd, path, budget)
         r.tried.append((name, v, round(secs, 3)))
         r.seconds += secs
         if v == 'sat-candidate' and ob.expect == 'unsat':
@@ -279,7 +285,7 @@ def discharge(obligations, axioms, timeout=10, jobs=None, second_opinion=False, 
                     rs.solver = '%s (relevance slice %d)' % (rs.solver, k + 1)
                     rs.seconds = spent
                     return rs
-        r1 = _discharge_text(ob, texts[i], workdir, budget, second_opinion)
+        r1 = _discharge_text(ob, texts[i], workdir, budget, second_opinion, parallel=(len(todo) <= 3))
         r1.seconds += spent
         return r1
     if todo:
@@ -300,10 +306,14 @@ def discharge(obligations, axioms, timeout=10, jobs=None, second_opinion=False, 
         with open(path, 'w') as fh:
             fh.write(texts[i])
         try:
-            for name, cmd in [SOLVERS[2], SOLVERS[0]]:
-                if name not in late or (name.startswith('cvc5') and '(lambda' in texts[i]):
-                    continue
-                v, out, secs = run_solver(name, cmd, path, 2 * budget)
+            cand = [(n_, c_) for n_, c_ in [SOLVERS[2], SOLVERS[0]] if n_ in late and not (n_.startswith('cvc5') and '(lambda' in texts[i])]
+            pre = {}
+            if len(again) <= 3 and len(cand) > 1:
+                with ThreadPoolExecutor(max_workers=len(cand)) as ex2:
+                    futs = {n_: ex2.submit(run_solver, n_, c_, path, 2 * budget) for n_, c_ in cand}
+                    pre = {n_: f.result() for n_, f in futs.items()}
+            for name, cmd in cand:
+                v, out, secs = pre[name] if name in pre else run_solver(name, cmd, path, 2 * budget)
                 r.tried.append((name + ' (retry)', v, round(secs, 3)))
                 r.seconds += secs
                 if v == 'unsat':
